@@ -1,4 +1,5 @@
 import PyCraft.Props.C13
+import PyCraft.Props.C13Roles
 #print axioms PyCraft.C13.call_packet_matches
 #print axioms PyCraft.C13.incoming_order
 #print axioms PyCraft.C13.exactly_once
@@ -7,3 +8,16 @@ import PyCraft.Props.C13
 #print axioms PyCraft.C13.reaction_ignore_suppresses_ordinary
 #print axioms PyCraft.C13.outgoing_order
 #print axioms PyCraft.C13.register_target
+#print axioms PyCraft.C13Roles.registered_role
+#print axioms PyCraft.C13Roles.role_of_every_call
+#print axioms PyCraft.C13Roles.directions_independent
+#print axioms PyCraft.C13Roles.session_roles
+#print axioms PyCraft.C13Roles.ignore_is_local
+#print axioms PyCraft.C13Roles.every_packet_once
+#print axioms PyCraft.C13Roles.dispatch_counts
+#print axioms PyCraft.C13Roles.flush_dispatches_all
+#print axioms PyCraft.C13Roles.iter_progress
+#print axioms PyCraft.C13Roles.writes_starve_reads
+#print axioms PyCraft.C13Roles.live_targets
+#print axioms PyCraft.C13Roles.live_runs
+#print axioms PyCraft.C13Roles.live_sessions
